@@ -4,6 +4,7 @@ from __future__ import annotations
 import ast
 
 from ..core import Ctx
+from ..loader import AnalysisError
 from ..symex import SUMMARIZER, expand, strip_ifexp_paths, u
 from . import layouts as LY
 
@@ -37,6 +38,7 @@ def run(ctx: Ctx):
     from .common import generic_lints
 
     generic_lints(ctx)
+    inflate_position(ctx)
 
 
 def enumeration(ctx: Ctx):
@@ -280,3 +282,56 @@ def cubeset(ctx: Ctx):
     ctx.check_expr("cubeset.guards", "cube.py::CubeSet._is_numeric_measure", e, "False if not self._is_multi_cube else Cube(self._cube_responses[0]).ndim == 0")
     e = expand(ctx.repo, cs, "_is_multi_cube", stop=lambda m: True)
     ctx.check_expr("cubeset.guards", "cube.py::CubeSet._is_multi_cube", e, "len(self._cube_responses) > 1")
+
+
+def inflate_position(ctx: Ctx):
+    """A padded cube gets its one-row dimension as the FIRST dimension, whatever the number of raw dimensions of the
+    response (an MR or categorical-array column has two): position argument of the insertion, evaluated for 0..3."""
+    from ..dectab import DTop, ModelInterp, Raises
+
+    cube = ctx.repo.cls("cube.py", "Cube")
+    fns = [ctx.repo.lookup(cube, "inflate")] + [m for n, m in cube.members.items() if "inflate" in n and n != "inflate"]
+    fns = [f for f in fns if f is not None]
+    if not fns:
+        raise AnalysisError("Cube.inflate vanished")
+    from ..stmts import resolver
+
+    found = 0
+    for m in fns:
+        res = resolver(m.node, multi=True)
+        for c in ast.walk(m.node):
+            if isinstance(c, ast.Call) and isinstance(c.func, ast.Attribute) and c.func.attr == "insert" and len(c.args) == 2:
+                found += 1
+                where = f"cube.py::Cube.{m.name} [{u(c)[:60]}]"
+                bad, undec = [], None
+                for pos_e in res(c.args[0]):
+                    for n_dims in (0, 1, 2, 3):
+                        def atoms(x, n_dims=n_dims):
+                            t = u(x)
+                            if t in ("len(dimensions)", "len(dims)", "len(cube_dict['result']['dimensions'])", "len(self._cube_dict['result']['dimensions'])") or (t.startswith("len(") and "dimensions" in t):
+                                return n_dims
+                            raise KeyError
+
+                        class _I(ModelInterp):
+                            def _call(self, cc, it):
+                                if isinstance(cc.func, ast.Name) and cc.func.id in ("max", "min"):
+                                    vals = [self.ev(a) for a in cc.args]
+                                    return max(vals) if cc.func.id == "max" else min(vals)
+                                return super()._call(cc, it)
+
+                        try:
+                            got = _I(atoms).ev(pos_e)
+                        except (DTop, Raises) as exc:
+                            undec = str(exc)
+                            break
+                        if got != 0:
+                            bad.append(f"{n_dims} raw dimensions -> position {got}")
+                    if undec:
+                        break
+                if undec:
+                    ctx.undecided("inflate-position", where, "DECTAB: " + undec, "position 0")
+                else:
+                    ctx.ob("inflate-position", where, bad or "position 0 for 0..3 raw dimensions", "the padding rows dimension is inserted at position 0", not bad,
+                           "between the two raw dimensions of an MR / array column the inflated cube is read as MR x CAT instead of CAT x MR")
+    if not found:
+        ctx.undecided("inflate-position", "cube.py::Cube.inflate", "no dimensions.insert(position, dimension) call found", "position 0")
